@@ -199,6 +199,23 @@ func c01Cases(tier string) []SyncCase {
 			}
 		}
 	}
+	// new (non-empty, nested) directories below directories the destination already has, at several depths
+	{
+		T := fsmodel.T0
+		dn := func(p string, mt int64) fsmodel.Node { return fsmodel.Node{Path: p, Kind: fsmodel.Dir, Perm: 0755, Mtime: T + mt} }
+		fn := func(p string, mt int64) fsmodel.Node {
+			return fsmodel.Node{Path: p, Kind: fsmodel.File, Perm: 0644, Mtime: T + mt, Data: fsmodel.Content(int(mt), 5)}
+		}
+		old := fsmodel.Tree{dn("d", 1), fn("d/keep", 2), dn("d/e", 3), fn("d/e/keep", 4), dn("z", 5)}
+		grown := append(old.Clone(), dn("d/n", 11), fn("d/n/f", 12), dn("d/n/m", 13), fn("d/n/m/g", 14), dn("d/e/n2", 15), fn("d/e/n2/h", 16), dn("d/e/empty", 17), dn("top", 18), fn("top/t", 19), dn("top/inner", 20), fn("top/inner/u", 21))
+		old.Sort()
+		grown.Sort()
+		for _, mem := range []bool{false, true} {
+			for _, merge := range []bool{false, true} {
+				cases = append(cases, SyncCase{Src: grown, Dst: old, Mem: mem, Merge: merge}, SyncCase{Src: old, Dst: grown, Mem: mem, Merge: merge})
+			}
+		}
+	}
 	// names that sort differently bytewise and path-wise, long and non-ASCII names
 	long := strings.Repeat("n", 255)
 	names := []string{"a", "a-b", "a b", "a.", "a0", "ab", "é", long}
